@@ -53,6 +53,10 @@ CHECKS = {
    text="For every stanza kind of the hand-written shape catalogue (about 150 kinds, 100 entity classes in 16 packages; documented variants with optional attributes present/absent, 0..n list children, boundary-biased values) 48 (thorough: 300) seeded instances per variant: stanza -> fromProtocolTreeNode -> toProtocolTreeNode compared strictly with the stanza, numbers by value; outgoing kinds: entity built through its public constructor -> stanza compared with the hand-built expected stanza; forwarded copies must be independent of the received entity. Every stanza an entity produces for sending (requests, acks, receipts, forwarded messages, reactions) is abstracted into WireFormat.tla's tree language, TLC computes its specified encoding, and the real encoder/decoder must reproduce it / return it unchanged.",
    note="There is no temporal content: TLC contributes the codec oracle only; the structural oracle is the catalogue (class docstrings + parser code), which is hand-written and could itself be wrong - it is cross-checked by its own self-test. Nine documented deviations of the pinned tree are recorded as known findings (findings/known_findings.json). Encrypted message kinds and key-bundle iqs are not in the catalogue.",
    technique="catalogue-driven exhaustive/seeded enumeration of entity round trips + TLC-evaluated codec reference (WireFormat.tla)"),
+ "C10": dict(level="exploration", design="4/C10",
+   text="Payload.tla holds the correspondence attribute path <-> protobuf field (numbers, wire types, kinds frozen from e2e.proto's descriptor in PayloadSchema.tla); for every generated attribute object (11 content kinds x optional-field subsets {required only, all, each optional alone, random} x value classes {empty, unicode, zero, large, binary, enum members} x quoting depth 0..3) TLC computes the expected wire fields and checks the model round trip. The harness builds the real attribute objects through their constructors, serialises with message_to_protobytes and parses the bytes with a generic protobuf reader (no generated classes): fields must equal TLC's; protobytes_to_message must return every field set with the same value; bytes written by a generic writer from TLC's fields (a peer's payload) must be re-serialised unchanged. PayloadEntity.tla (edit in place / replace / serialise / forward histories, TLC-checked freshness) is replayed on real message entities.",
+   note="Exploration level: the enumeration is structured and seeded, not exhaustive over values. An empty conversation string is not generated. Trusts the generic reader/writer (60 lines) and TLC's evaluation.",
+   technique="TLA+ field-correspondence model evaluated by TLC as oracle (term interpretation) + generic protobuf reader/writer; TLC behaviour replay for entity histories"),
 }
 NA_REASON = "check not built yet in this session (planned: see DESIGN.md section 4)"
 
